@@ -120,7 +120,7 @@ theorem C11_terminal (cur : St) (evs : List St) (h : DocPath cur evs) (hc : cur 
 
 /-- whatever a component reports during start, run and shutdown, and whether or not its start or
 shutdown fails, the events the service delivers for it follow the documented machine -/
-theorem C11_lifecycle_doc (l : Life) : DocPath .none l.events := C11_events_doc l.reports
+theorem lifecycle_doc (l : Life) : DocPath .none l.events := C11_events_doc l.reports
 
 /-- a well-behaved component that reports nothing itself is seen as Starting, OK, Stopping, Stopped -/
 theorem C11_lifecycle_quiet :
@@ -136,10 +136,25 @@ theorem C11_lifecycle_never_started (fs : Bool) (ds r dstop : List St) (a b : Bo
     (Life.mk false ds a b r dstop fs).events = [] := by
   cases fs <;> simp [Life.events, Life.reports, run, step, transition] <;> decide
 
+/-- complete characterisation of what the service delivers for a component that reports nothing itself, for every
+combination of "was reached by start-up / its start fails / the whole start-up succeeds / its shutdown fails"
+(`Life` is tied to graph.go / extensions.go by the `c11-life` differential) -/
+theorem C11_lifecycle_quiet_all (started failStart allStarted failStop : Bool) :
+    (Life.mk started [] failStart allStarted [] [] failStop).events =
+      if started then
+        [.starting, if failStart then .permanent else .ok, .stopping, if failStop then .permanent else .stopped]
+      else [] := by
+  cases started <;> cases failStart <;> cases allStarted <;> cases failStop <;> decide
+
+/-- a component that was reached by start-up is always shown as `Starting` first, whatever it reports itself -/
+theorem C11_lifecycle_begins (l : Life) (h : l.started = true) : l.events.head? = some .starting := by
+  have h0 : allowed .none .starting = true := by decide
+  simp [Life.events, Life.reports, h, run, step, transition, h0]
+
 /-- a component shared by two instances, driven by the service: whatever the component reports, in
 whatever order the instances are started and stopped, and whether or not its shutdown fails, the
 events of BOTH instances follow the documented machine -/
-theorem C11_shared_life_doc (l : SharedLife) :
+theorem shared_life_doc (l : SharedLife) :
     DocPath .none l.eventsX ∧ DocPath .none (l.eventsY StatusTable.ringCap) :=
   ⟨C11_events_doc l.reportsX, C11_events_doc (l.reportsY StatusTable.ringCap)⟩
 
@@ -156,19 +171,25 @@ fails: the instance whose `Shutdown` call did the work keeps `PermanentError`, t
 to `Stopped` by the graph's automatic reports because its own `Shutdown` call returned nil.  Every status
 the component reported was delivered to both — recorded as an observation, not a violation. -/
 theorem C11_shared_life_final_may_differ :
-    let l : SharedLife := ⟨true, true, [], true, [], true, [], true⟩
+    let l : SharedLife := ⟨true, true, [], true, [], true, [], true, false⟩
     l.eventsX = [.starting, .ok, .stopping, .permanent] ∧
     l.eventsY StatusTable.ringCap = [.starting, .ok, .stopping, .permanent, .stopping, .stopped] := by decide
 
+/-- a shared component whose (single) `Start` fails: the instance that was being started is shown Starting, PermanentError and is
+still taken through Stopping to Stopped by the shutdown that follows; the other instance, never reached, is shown nothing -/
+theorem C11_shared_life_start_failure :
+    let l : SharedLife := ⟨true, false, [], false, [], true, [], false, true⟩
+    l.eventsX = [.starting, .permanent, .stopping, .stopped] ∧ l.eventsY StatusTable.ringCap = [] := by decide
+
 /-! ## illegal reports are no-ops; automatic OK only from Starting -/
 
-theorem C11_illegal_noop (cur s : St) (h : allowed cur s = false) : step cur (.status s) = (cur, Option.none) := by
+theorem step_illegal_noop (cur s : St) (h : allowed cur s = false) : step cur (.status s) = (cur, Option.none) := by
   simp [step, transition, h]
 
-theorem C11_legal_moves (cur s : St) (h : allowed cur s = true) : step cur (.status s) = (s, some s) := by
+theorem step_legal_moves (cur s : St) (h : allowed cur s = true) : step cur (.status s) = (s, some s) := by
   simp [step, transition, h]
 
-theorem C11_ok_only_if_starting (cur : St) :
+theorem step_ok_only_if_starting (cur : St) :
     (cur ≠ .starting → step cur .okIfStarting = (cur, Option.none)) ∧
     (cur = .starting → step cur .okIfStarting = (.ok, some .ok)) := by
   constructor
@@ -384,5 +405,111 @@ example : run .none [.status .ok, .status .starting, .okIfStarting, .status .ok,
     = [.starting, .ok, .permanent, .stopping, .stopped] := by decide
 
 example : (Wrapper.runOps StatusTable.ringCap {} (.attach :: [.report .starting, .report .recoverable, .attach, .report .ok])).sources = [.ok, .ok] := by decide
+
+
+/-! ## event-sequence version: every instance's WATCHER is shown the same events -/
+
+theorem run_append (cur : St) (a b : List Report) : run cur (a ++ b) = run cur a ++ run (runState cur a) b := by
+  induction a generalizing cur with
+  | nil => rfl
+  | cons x xs ih =>
+    simp only [List.cons_append, run, runState]
+    cases (step cur x).2 <;> simp [ih]
+
+theorem run_single (cur e : St) : run cur [Report.status e] = (transition cur e).2.toList := by
+  simp only [run, step]
+  cases (transition cur e).2 <;> rfl
+
+theorem sharedE_inv (cap : Nat) (ops : List WOp) (w : WrapperE) (hist : List St)
+    (hne : w.sources ≠ [])
+    (hring : w.ring = hist)
+    (hsrc : ∀ s ∈ w.sources, s = (runState .starting (hist.map Report.status), run .starting (hist.map Report.status)))
+    (hfit : hist.length + (reportsOf ops).length ≤ cap) :
+    let w' := WrapperE.runOps cap w ops
+    w'.sources ≠ [] ∧ w'.ring = hist ++ reportsOf ops ∧
+      ∀ s ∈ w'.sources, s = (runState .starting ((hist ++ reportsOf ops).map Report.status),
+        run .starting ((hist ++ reportsOf ops).map Report.status)) := by
+  induction ops generalizing w hist with
+  | nil =>
+    simp only [WrapperE.runOps, List.foldl_nil, reportsOf, List.append_nil]
+    exact ⟨hne, hring, hsrc⟩
+  | cons op rest ih =>
+    cases op with
+    | report e =>
+      simp only [reportsOf, List.length_cons] at hfit
+      subst hring
+      have hemp : w.sources.isEmpty = false := by cases h : w.sources <;> simp_all
+      have hlt : w.ring.length < cap := by omega
+      have := ih (w.report cap e) (w.ring ++ [e])
+        (by simp [WrapperE.report]; exact hne)
+        (by simp [WrapperE.report, hemp, pushRing_small cap w.ring e hlt])
+        (by
+          intro s hs
+          simp only [WrapperE.report, List.mem_map] at hs
+          obtain ⟨s0, hs0, rfl⟩ := hs
+          rw [hsrc s0 hs0, List.map_append, runState_append, run_append]
+          simp [runState, step, run_single])
+        (by simp; omega)
+      simpa [WrapperE.runOps, WrapperE.apply, reportsOf, List.append_assoc] using this
+    | attach =>
+      simp only [reportsOf] at hfit
+      have := ih w.addSource hist
+        (by simp [WrapperE.addSource])
+        (by simp [WrapperE.addSource, hring])
+        (by
+          intro s hs
+          simp only [WrapperE.addSource, List.mem_append, List.mem_singleton] at hs
+          rcases hs with hs | rfl
+          · exact hsrc s hs
+          · rw [hring])
+        hfit
+      simpa [WrapperE.runOps, WrapperE.apply, reportsOf] using this
+
+theorem sharedE_tail (cap : Nat) (post : List WOp) (w : WrapperE) (x : St) (evs : List St) (hpost : noAttach post = true)
+    (hsrc : ∀ s ∈ w.sources, s = (x, evs)) :
+    ∀ s ∈ (WrapperE.runOps cap w post).sources,
+      s = (runState x ((reportsOf post).map Report.status), evs ++ run x ((reportsOf post).map Report.status)) := by
+  induction post generalizing w x evs with
+  | nil =>
+    simp only [WrapperE.runOps, List.foldl_nil, reportsOf, List.map_nil, runState, run, List.append_nil]
+    exact hsrc
+  | cons op rest ih =>
+    cases op with
+    | attach => simp [noAttach] at hpost
+    | report e =>
+      simp only [noAttach] at hpost
+      have := ih (w.report cap e) (transition x e).1 (evs ++ (transition x e).2.toList) hpost (by
+        intro s hs
+        simp only [WrapperE.report, List.mem_map] at hs
+        obtain ⟨s0, hs0, rfl⟩ := hs
+        rw [hsrc s0 hs0])
+      have hr : run x (Report.status e :: (reportsOf rest).map Report.status) =
+          (transition x e).2.toList ++ run (transition x e).1 ((reportsOf rest).map Report.status) := by
+        have := run_append x [Report.status e] ((reportsOf rest).map Report.status)
+        simpa [run_single, runState, step] using this
+      simpa [WrapperE.runOps, WrapperE.apply, reportsOf, runState, step, hr, List.append_assoc] using this
+
+/-- **event-sequence version of the shared-delivery clause (partial):** as long as no more than `ringCap` reports were made
+before the last attachment, the watcher of EVERY instance the shared component represents — whenever that instance attached,
+however many there are — has been shown exactly the same events: those of the component's whole report history run from
+`Starting`. -/
+theorem C11_shared_events_partial (pre post : List WOp)
+    (hfit : (reportsOf pre).length ≤ StatusTable.ringCap) (hpost : noAttach post = true) :
+    ∀ s ∈ (WrapperE.runOps StatusTable.ringCap {} (.attach :: (pre ++ post))).sources,
+      s = (runState .starting ((reportsOf (pre ++ post)).map Report.status),
+           run .starting ((reportsOf (pre ++ post)).map Report.status)) := by
+  have h0 := sharedE_inv StatusTable.ringCap pre ({} : WrapperE).addSource [] (by simp [WrapperE.addSource])
+    (by simp [WrapperE.addSource]) (by simp [WrapperE.addSource, runState, run]) (by simpa using hfit)
+  simp only [List.nil_append] at h0
+  obtain ⟨_, _, hs⟩ := h0
+  have hro : WrapperE.runOps StatusTable.ringCap {} (.attach :: (pre ++ post)) =
+      WrapperE.runOps StatusTable.ringCap (WrapperE.runOps StatusTable.ringCap ({} : WrapperE).addSource pre) post := by
+    simp [WrapperE.runOps, WrapperE.apply, List.foldl_append]
+  rw [hro]
+  rw [reportsOf_append, List.map_append, runState_append, run_append]
+  exact sharedE_tail _ post _ _ _ hpost hs
+
+example : (WrapperE.runOps StatusTable.ringCap {} (.attach :: [.report .starting, .report .recoverable, .attach, .attach, .report .ok])).sources =
+    [(.ok, [.recoverable, .ok]), (.ok, [.recoverable, .ok]), (.ok, [.recoverable, .ok])] := by decide
 
 end OtelVerif.C11
